@@ -342,12 +342,12 @@ def _as_expression(stmts: List[ast.stmt], depth: int = 0) -> Optional[ast.AST]:
 
 
 def _fold_result(body: List[ast.stmt], res: Optional[str]):
-    """when the only store to the result variable is a last statement `res = <name / attribute / constant>`, hand that
-    expression to the caller instead of a temporary"""
+    """when the only store to the result variable is the last statement `res = <expr>` (the helper ended in `return <expr>`),
+    hand that expression to the statement that uses the result instead of a temporary: nothing executes in between"""
     if res is None or not body:
         return body, None
     last = body[-1]
-    if isinstance(last, ast.Assign) and len(last.targets) == 1 and isinstance(last.targets[0], ast.Name) and last.targets[0].id == res and _simple_arg(last.value):
+    if isinstance(last, ast.Assign) and len(last.targets) == 1 and isinstance(last.targets[0], ast.Name) and last.targets[0].id == res:
         n = sum(1 for st in body for x in ast.walk(st) if isinstance(x, ast.Name) and x.id == res and isinstance(x.ctx, ast.Store))
         if n == 1:
             return body[:-1], last.value
